@@ -262,49 +262,56 @@ func TestVerifC10BoundedStandIn(t *testing.T) {
 						for i := 0; i < n; i++ {
 							perms = append(perms, fmt.Sprintf("p%d: (ctx: Context): boolean => this.related.p%dr.includes(ctx.subject),", i, i))
 						}
-						doc := "import { Namespace, Context } from \"@ory/keto-namespace-types\"\nclass T implements Namespace {\n  related: {\n    " + strings.Join(rels, "\n    ") + "\n  }\n  permits = {\n    " + strings.Join(perms, "\n    ") + "\n    target: (ctx: Context): boolean => " + src + ",\n  }\n}\n"
-						evaluated++
-						if ops > 0 {
-							nontrivial++
-						}
-						if len(samples) < 6 && ops == maxOps && evaluated%97 == 0 {
-							samples = append(samples, src)
-						}
-						nss, errs := Parse(doc)
-						fail := func(detail string) {
-							c := classify(r)
-							classCount[c]++
-							if classes[c] == nil {
-								classes[c] = &failure{Class: c, Expr: src, Detail: detail}
+						for _, trailing := range []string{",", ""} {
+							// the permission under test is the last entry of the permits block, written with and
+							// without a trailing comma (the expression then ends at the closing brace)
+							doc := "import { Namespace, Context } from \"@ory/keto-namespace-types\"\nclass T implements Namespace {\n  related: {\n    " + strings.Join(rels, "\n    ") + "\n  }\n  permits = {\n    " + strings.Join(perms, "\n    ") + "\n    target: (ctx: Context): boolean => " + src + trailing + "\n  }\n}\n"
+							evaluated++
+							if ops > 0 {
+								nontrivial++
 							}
-						}
-						if len(errs) > 0 {
-							fail("parse error: " + errs[0].msg)
-							continue
-						}
-						var rw *ast.SubjectSetRewrite
-						for _, ns := range nss {
-							for i := range ns.Relations {
-								if ns.Relations[i].Name == "target" {
-									rw = ns.Relations[i].SubjectSetRewrite
+							if len(samples) < 6 && ops == maxOps && evaluated%97 == 0 {
+								samples = append(samples, src)
+							}
+							nss, errs := Parse(doc)
+							fail := func(detail string) {
+								c := classify(r)
+								if trailing == "" {
+									c += "+no-trailing-comma"
+								}
+								classCount[c]++
+								if classes[c] == nil {
+									classes[c] = &failure{Class: c, Expr: src, Detail: detail}
 								}
 							}
-						}
-						ok := true
-						for m := 0; m < 1<<uint(n) && ok; m++ {
-							v := make([]bool, n)
-							vm := map[string]bool{}
-							for i := 0; i < n; i++ {
-								v[i] = m&(1<<uint(i)) != 0
-								vm["p"+strconv.Itoa(i)] = v[i]
+							if len(errs) > 0 {
+								fail("parse error: " + errs[0].msg)
+								continue
 							}
-							got, err := evalRewrite(rw, vm)
-							if err != nil {
-								fail(err.Error())
-								ok = false
-							} else if got != r.eval(v) {
-								fail(fmt.Sprintf("assignment %v: keto %v, TypeScript %v", v, got, r.eval(v)))
-								ok = false
+							var rw *ast.SubjectSetRewrite
+							for _, ns := range nss {
+								for i := range ns.Relations {
+									if ns.Relations[i].Name == "target" {
+										rw = ns.Relations[i].SubjectSetRewrite
+									}
+								}
+							}
+							ok := true
+							for m := 0; m < 1<<uint(n) && ok; m++ {
+								v := make([]bool, n)
+								vm := map[string]bool{}
+								for i := 0; i < n; i++ {
+									v[i] = m&(1<<uint(i)) != 0
+									vm["p"+strconv.Itoa(i)] = v[i]
+								}
+								got, err := evalRewrite(rw, vm)
+								if err != nil {
+									fail(err.Error())
+									ok = false
+								} else if got != r.eval(v) {
+									fail(fmt.Sprintf("assignment %v: keto %v, TypeScript %v", v, got, r.eval(v)))
+									ok = false
+								}
 							}
 						}
 					}
